@@ -92,6 +92,12 @@ CLAIMED = {
                      "algebra; inverse round trip and composition are lemmas over those terms.",
                 note="Relative to the abstract algebra (product, inverse, hom/projections) of externals/mat.py; the lemmas' algebraic hypotheses are assumed ground "
                      "instances. Numerical agreement with numpy/pyquaternion is covered by the native harness only (bounded, random rigid transforms).", ref="5/C18"),
+    "C08": dict(text="is_better_than of all four matching classes is verified to be the strict comparison in the right direction; 'a correct pair with ordinary ground "
+                     "truth stays correct under a looser threshold' is a lemma over C03's verified definition of is_result_correct (per mode); monotonicity of prefix "
+                     "counts under pointwise implication, Abel summation, term-wise comparison and envelope monotonicity are induction lemmas proved on every run "
+                     "(AP non-decreasing in the cumulative TP weights for the rank-indexed definition).",
+                note="The identification of Ap's computed area with the rank-indexed sum is bounded (exhaustive rankings up to length 5/6 on the real Ap, replay/C08.py), "
+                     "as is the scene-level check; induction itself is the meta-level step.", ref="5/C08"),
 }
 NA_REASON = "check not built yet in this session (planned in DESIGN.md section 5); not claimed"
 ALL = [f"C{n:02d}" for n in range(1, 21)]
